@@ -18,6 +18,10 @@ def _work(job):
             eng.explore(h)
         except Unsupported as e:
             eng.unsupported(f'{label}::subset', str(e))
+        except (TypeError, AttributeError, KeyError, IndexError, ValueError) as e:
+            # an operation on a ghost/symbolic value that the engine does not model (typically after a change of the
+            # code under verification): undecided, never a violation and not a checker crash
+            eng.unsupported(f'{label}::subset', 'unmodelled operation: ' + traceback.format_exc()[-600:])
     except Exception:   # noqa  harness crash: reported as checker error by the parent
         return dict(label=label, error=traceback.format_exc()[-1500:])
     obl = {}
